@@ -346,6 +346,7 @@ func checkC25(w *World, r *Run) {
 			return a && b
 		}, "a current version or a delete marker can be treated as a noncurrent object version")
 	}
+	checkC25VersionPaging(w, r)
 	r.NotCovered("due-time arithmetic (rounding to the next midnight UTC), retention counting over version orders, tag/size filter evaluation inside LifecycleRuleMatchesObject")
 	_ = types.Universe
 }
